@@ -125,6 +125,11 @@ func directCorpus() []*directInput {
 		{Universe: simpleUniverse, Contact: bob("active", []string{"tel:+43005086055"}, []int{3}), Modifier: &modSpec{Kind: "channel", Channel: 0}},
 		{Universe: simpleUniverse, Contact: bob("active", []string{"tel:+4400858870981", "tel:12065551212"}, []int{3}), Modifier: &modSpec{Kind: "channel", Channel: -1}},
 		{Universe: simpleUniverse, Contact: bob("active", []string{"tel:12065551212", "telegram:12345"}, []int{3, 4}), Modifier: &modSpec{Kind: "channel", Channel: 3}},
+		// F3n (fixed): gocommon's Normalize is not idempotent for these; the modifier kept the one-step form, which HasURN (it
+		// normalizes again) never found: every further application appended the URN again
+		{Universe: simpleUniverse, Contact: bob("active", []string{tel}, []int{3}), Modifier: &modSpec{Kind: "urns", Mode: "append", URNs: []string{"tel:+234 (0) 0803 123 4567"}}},
+		{Universe: simpleUniverse, Contact: bob("active", []string{tel}, []int{3}), Modifier: &modSpec{Kind: "urns", Mode: "append", URNs: []string{"tel:12065550000X12", "tel:+43 000 5086055"}}},
+		{Universe: simpleUniverse, Contact: bob("active", []string{tel, "tel:+2348031234567"}, []int{3}), Modifier: &modSpec{Kind: "urns", Mode: "remove", URNs: []string{"tel:+23408031234567"}}},
 		// a group reference repeated in the stored contact (F6c, fixed by 595be89): Remove deleted one entry only
 		{Universe: simpleUniverse, Contact: &contactSpec{Name: "Jim", Lang: "eng", Status: "active", Groups: []int{3, 3, 0, 0}, Fields: map[string]string{}}, Modifier: &modSpec{Kind: "language", Text: "fra"}},
 		{Universe: simpleUniverse, Contact: &contactSpec{Name: "Jim", Lang: "eng", Status: "active", Groups: []int{0, 1, 0}, Fields: map[string]string{}}, Modifier: &modSpec{Kind: "groups", Mode: "remove", Groups: []int{0}}},
